@@ -167,6 +167,7 @@ package soyhtml
 //@   at call (*state).walk#7 assume typeis(arg1, *ast.ListNode)
 //@   requires[inv:frames-allocated;C02] forall(i, 0, len(s.context), s.context[i].vars < allocmark())
 //@   requires[inv:top-frame-distinct;C02] forall(i, 0, len(s.context) - 1, s.context[i].vars != s.context[len(s.context)-1].vars)
+//@   requires[inv:top-frame-owned;C02] scopeOK(s.context)
 //@   ensures[frames-kept;C02] len(s.context) == old(len(s.context)) && forall(i, 0, len(s.context), s.context[i].vars == old(s.context[i].vars)) && forall(i, 0, len(s.context) - 1, unchangedmap(s.context[i].vars))
 //@   ensures[block-bindings-dropped;C02] !typeis(node, *ast.LetValueNode) && !typeis(node, *ast.LetContentNode) ==> unchangedmap(s.context[len(s.context)-1].vars)
 //@   nosafety
@@ -477,7 +478,10 @@ package soyhtml
 //@   trustedensures[frames-kept;C02] len(s.context) == old(len(s.context)) && forall(i, 0, len(s.context), s.context[i].vars == old(s.context[i].vars) && s.context[i].entered == old(s.context[i].entered) && unchangedmap(s.context[i].vars)) && forall(i, 0, len(s.context), old(s.context)[i].vars == old(s.context[i].vars)) && otherarraysunchanged(s.context) && (base(s.context) == old(base(s.context)) || base(s.context) >= old(allocmark()))
 //@   nosafety
 //@   at call (*state).walk#0 assert[callee-binds-in-owned-frame;C08] scopeOK(arg0.context)
+//@   requires[inv:frames-allocated;C02] forall(i, 0, len(s.context), s.context[i].vars < allocmark())
 //@   loop 0
+//@     invariant[cd-frames-allocated;C02] forall(i, 0, len(callData), callData[i].vars < allocmark())
+//@     invariant[cd-top-distinct;C02] forall(i, 0, len(callData) - 1, callData[i].vars != callData[len(callData)-1].vars)
 //@     invariant[cd-alldata-len;C02] node.AllData ==> 1 <= nad && nad <= len(s.context) && len(callData) == nad + 1
 //@     invariant[cd-alldata-frames;C02] node.AllData ==> forall(i, 0, nad, callData[i].vars == s.context[i].vars)
 //@     invariant[cd-dataexpr-len;C02] !node.AllData && node.Data != nil ==> len(callData) == 2
